@@ -144,6 +144,11 @@ pub fn pool() -> Vec<Vec<u8>> {
             v.push(b.finish().bytes);
         }
     }
+    // (f) two dynamic blocks with many 13-15 bit literal/length codes in different assignments
+    // (large overflow trees rebuilt per block)
+    for st in crate::streams::bushy_deep_streams(None).into_iter().filter(|st| st.bytes.len() < 6000).take(2) {
+        v.push(st.bytes);
+    }
     v.push(vec![0x05, 0xff, 0xff, 0x00, 0x00]); // dynamic header garbage
     v.push(vec![0x78, 0x9c, 0xed, 0xfd, 0x01]);
     v.push(vec![0xff; 20]);
